@@ -264,7 +264,7 @@ COMMON_NOTE = ("Trusted: Lean kernel; propext/Classical.choice/Quot.sound; std::
 C06 = Prop(
     "C06", "fv", ["NitroVerif.Props.C06"], gen_c06,
     rule="pool of 3 vectors; exhaustive: every operation of a ~100-op concrete alphabet (all constructors, 4 appends, "
-         "range insert at every position, positional emplace/erase/at/get/[] at every index 0..cap+1, pop, copy/move "
+         "range insert at every position, positional emplace/erase/at/get/[] at every index 0..cap+1, erase at the position just before the first slot, pop, copy/move "
          "construction, 3 assignments incl. self) behind each of 10 setups (capacity 0..3 x fill 0..cap), all pairs of "
          "operations behind 5 setups; fault enumeration: every operation x throw point 0..4 followed by probe "
          "operations; the same for a move-only element type; seeded random histories up to 40 operations with random "
@@ -288,7 +288,8 @@ C07 = Prop(
     "C07", "fv", ["NitroVerif.Props.C07"], gen_c07,
     rule="as C06 without throw points and without interior range inserts: every operation behind each of 10 setups, "
          "all pairs behind 6 setups, move-only element type, seeded random histories up to 40 operations; every step's "
-         "size/capacity/forward/reverse contents compared with a plain capacity-bounded list (Ref). Non-trivial: at "
+         "size/capacity/forward/reverse contents compared with a plain capacity-bounded list (Ref); 80 cases on "
+         "fixed_vector<std::string> / fixed_vector<std::vector<int>>: emplace_back(n, v) and emplace(pos, n, v) build n copies of v. Non-trivial: at "
          "least 2 operations. Distinct = distinct case line.",
     harness=HARNESS, search=lambda dis, rng: rng.shuffle(gen_c07("thorough", rng))[:30000],
     theorem_hint="NitroVerif.Props.C07.{run_refines,apply_refines,copy_equal,move_transfers,move_assign_transfers,"
